@@ -350,15 +350,16 @@ def disk_attrs(pid, fam, work, tier='quick'):
     # large files walked first (what a per-file time or size budget would cut off), so that family files follow them on
     # the same workers
     filler = ('class Big%d {\n' + ''.join('  int f%d = %d + 1;\n' % (k, k) for k in range(4000)) + '}\n')
+    bigdir = '0big' if tier != 'thorough' else 'zzbig'      # thorough: the slow files come first and the FAMILY follows them
     for k in range(5):
-        os.makedirs(root + '/0big', exist_ok=True)
-        open('%s/0big/Big%d.java' % (root, k), 'w').write(filler % k)
+        os.makedirs('%s/%s' % (root, bigdir), exist_ok=True)
+        open('%s/%s/Big%d.java' % (root, bigdir, k), 'w').write(filler % k)
     if tier == 'thorough':
         # files whose PARSE takes seconds (as in the C07/C08/C09 slow-parse contexts), as many as there are workers,
         # walked before everything else: every worker handles ordinary files right after a slow one
         for k in range(5):
             os.makedirs(root + '/00slow', exist_ok=True)
-            open('%s/00slow/S%d.java' % (root, k), 'w').write('public class S%d {\n  void before() { int q = %d + 2; }\n  /* ' % (k, k) + '/* x ' * 30000 + '\n')
+            open('%s/00slow/S%d.java' % (root, k), 'w').write('public class S%d {\n  void before() { int q = %d + 2; }\n  /* ' % (k, k) + '/* x ' * 9000 + '\n')
         stats['slow_parse_files'] = 5
     out = work + '/diskattrs_dump.txt'
     # default environment, then every variable the sources read (the general matrix is applied in the C03 census and the C04/C09 disk stage)
